@@ -266,6 +266,14 @@ func (e *CEnv) eval(x CExpr) Term {
 		}
 		body := c.eval(n.Body)
 		if n.Forall {
+			if n.Trigger != nil {
+				// the written trigger is the only one: the instances are the ones the contracts ask for
+				var trs []string
+				for _, t := range n.Trigger {
+					trs = append(trs, c.eval(t).S)
+				}
+				return mkBool("(forall (" + strings.Join(binds, " ") + ") (! " + implies(and(ranges...), body.S) + " :pattern (" + strings.Join(trs, " ") + ")))")
+			}
 			return mkBool("(forall (" + strings.Join(binds, " ") + ") " + implies(and(ranges...), body.S) + ")")
 		}
 		return mkBool("(exists (" + strings.Join(binds, " ") + ") " + and(append(ranges, body.S)...) + ")")
